@@ -293,3 +293,839 @@ Example sleep_runs :
 Proof.
   repeat split; eexists; (split; [vm_compute; reflexivity|]); repeat split.
 Qed.
+
+(* ================================================================================ *)
+(* Part 2 — JitterTicker                                                            *)
+(* ================================================================================ *)
+
+(* ---- list lemmas ---- *)
+Lemma nth_upd_cases {A} (l : list A) k m x y :
+  nth_error (upd l k x) m = Some y ->
+  (m = k /\ y = x) \/ (m <> k /\ nth_error l m = Some y).
+Proof.
+  intros H. destruct (Nat.eq_dec m k) as [->|Hne].
+  - left. split; [reflexivity|].
+    destruct (lt_dec k (length l)) as [Hlt|Hge].
+    + rewrite nth_error_upd_same in H by exact Hlt. congruence.
+    + assert (Hn : nth_error (upd l k x) k = None) by (apply nth_error_None; rewrite upd_length; lia).
+      congruence.
+  - right. split; [exact Hne|]. rewrite nth_error_upd_other in H by congruence. exact H.
+Qed.
+
+Lemma nth_snoc_cases {A} (l : list A) x m y :
+  nth_error (l ++ [x]) m = Some y -> nth_error l m = Some y \/ (m = length l /\ y = x).
+Proof.
+  intros H. destruct (lt_dec m (length l)) as [Hlt|Hge].
+  - left. rewrite nth_error_app1 in H by exact Hlt. exact H.
+  - right. rewrite nth_error_app2 in H by lia.
+    destruct (m - length l)%nat as [|n] eqn:E.
+    + simpl in H. split; [lia | congruence].
+    + simpl in H. destruct n; discriminate.
+Qed.
+
+Lemma nth_lt {A} (l : list A) n x : nth_error l n = Some x -> (n < length l)%nat.
+Proof. intros H. apply nth_error_Some. congruence. Qed.
+
+(* ---- wrap64 ---- *)
+Lemma wrap64_small z : - 9223372036854775808 <= z <= max_i64 -> wrap64 z = z.
+Proof. unfold wrap64, max_i64. intros H. rewrite Z.mod_small by lia. lia. Qed.
+
+(* ---- timers ---- *)
+Definition same_static (tm tm' : timer) : Prop :=
+  tm_gen tm' = tm_gen tm /\ tm_dl tm' = tm_dl tm /\ tm_d tm' = tm_d tm /\ tm_j tm' = tm_j tm
+  /\ tm_cb tm' = tm_cb tm /\ (tm_st tm' = TArmed -> tm_st tm = TArmed).
+
+Lemma same_static_refl tm : same_static tm tm.
+Proof. repeat split; auto. Qed.
+
+Lemma stop_timer_length tms k : length (stop_timer tms k) = length tms.
+Proof.
+  unfold stop_timer. destruct (nth_error tms k) as [tm|]; [|reflexivity].
+  destruct (tm_st tm); try reflexivity. apply upd_length.
+Qed.
+
+Lemma stop_timer_nth tms k i tm' :
+  nth_error (stop_timer tms k) i = Some tm' ->
+  exists tm, nth_error tms i = Some tm /\ same_static tm tm'.
+Proof.
+  unfold stop_timer. destruct (nth_error tms k) as [tm0|] eqn:E.
+  - destruct (tm_st tm0) eqn:Est.
+    + intros H. exists tm'. split; [exact H | apply same_static_refl].
+    + intros H. apply nth_upd_cases in H. destruct H as [[-> ->] | [Hne H]].
+      * exists tm0. split; [exact E | repeat split; discriminate].
+      * exists tm'. split; [exact H | apply same_static_refl].
+    + intros H. exists tm'. split; [exact H | apply same_static_refl].
+  - intros H. exists tm'. split; [exact H | apply same_static_refl].
+Qed.
+
+Definition new_timer (s : st) (nx : Z) : timer := mkTm (gen s + 1) (now s + nx) (fd s) (fj s) TArmed CbNone.
+
+Lemma schedule_inv g s r s2 :
+  schedule g s r = Some s2 ->
+  exists nx tms1,
+    next_delay g (fd s) (fj s) r = Some nx /\ length tms1 = length (timers s)
+    /\ (forall i tm', nth_error tms1 i = Some tm' -> exists tm, nth_error (timers s) i = Some tm /\ same_static tm tm')
+    /\ s2 = set_tmr (set_gen (set_timers s (tms1 ++ [new_timer s nx])) (gen s + 1)) (Some (length tms1)).
+Proof.
+  unfold schedule. destruct (next_delay g (fd s) (fj s) r) as [nx|]; [|discriminate].
+  intros H. injection H as <-. exists nx.
+  destruct (tmr s) as [k|].
+  - exists (stop_timer (timers s) k). split; [reflexivity|]. split; [apply stop_timer_length|].
+    split; [intros i tm' Hn; eapply stop_timer_nth; eauto | reflexivity].
+  - exists (timers s). split; [reflexivity|]. split; [reflexivity|].
+    split; [|reflexivity]. intros i tm' Hn. exists tm'. split; [exact Hn | apply same_static_refl].
+Qed.
+
+(* consequences in a directly usable form *)
+Lemma schedule_spec g s r s2 :
+  schedule g s r = Some s2 ->
+  now s2 = now s /\ life s2 = life s /\ fd s2 = fd s /\ fj s2 = fj s /\ gen s2 = gen s + 1
+  /\ tmr s2 = Some (length (timers s)) /\ mu s2 = mu s /\ buf s2 = buf s /\ thr s2 = thr s
+  /\ sent s2 = sent s /\ recvd s2 = recvd s /\ stopped s2 = stopped s
+  /\ length (timers s2) = S (length (timers s))
+  /\ exists nx, next_delay g (fd s) (fj s) r = Some nx /\
+       forall i tm', nth_error (timers s2) i = Some tm' ->
+         (exists tm, nth_error (timers s) i = Some tm /\ same_static tm tm')
+         \/ (i = length (timers s) /\ tm' = new_timer s nx).
+Proof.
+  intros H. destruct (schedule_inv _ _ _ _ H) as [nx [tms1 [Hnx [Hlen [Hold ->]]]]].
+  simpl. repeat (split; [first [reflexivity | congruence]|]).
+  split; [rewrite app_length; simpl length; lia|].
+  exists nx. split; [exact Hnx|]. intros i tm' Hn.
+  apply nth_snoc_cases in Hn. destruct Hn as [Hn | [-> ->]].
+  - left. apply Hold. exact Hn.
+  - right. split; [exact Hlen | reflexivity].
+Qed.
+
+(* the delay chosen by schedule() is at least d - jitter for documented arguments in range *)
+Lemma next_delay_lb d j r nx :
+  next_delay true d j r = Some nx -> r_valid true j r = true ->
+  0 <= j < d -> d + j <= max_i64 -> d - j <= nx.
+Proof.
+  unfold next_delay, r_valid, calls_rand, rand_arg. cbn [negb orb]. intros Hn Hr Hj Hmax.
+  assert (Hw : wrap64 (2 * j) = 2 * j) by (apply wrap64_small; unfold max_i64 in *; lia).
+  rewrite Hw in *.
+  destruct (0 <? j) eqn:Ej; zb.
+  - destruct (2 * j <=? 0) eqn:E2; [discriminate|]. zb. injection Hn as <-.
+    assert (E3 : (0 <? 2 * j) = true) by (apply Z.ltb_lt; lia). rewrite E3 in Hr. cbn [andb] in Hr. zb.
+    rewrite wrap64_small by (unfold max_i64 in *; lia). lia.
+  - injection Hn as <-. lia.
+Qed.
+
+Lemma next_delay_no_panic d j r : 0 <= j -> 2 * j <= max_i64 -> next_delay true d j r <> None.
+Proof.
+  unfold next_delay, calls_rand, rand_arg. cbn [negb orb]. intros Hj Hmax.
+  destruct (0 <? j) eqn:Ej; zb; [|discriminate].
+  rewrite wrap64_small by (unfold max_i64 in *; lia).
+  destruct (2 * j <=? 0) eqn:E2; zb; [lia | discriminate].
+Qed.
+
+(* ================= the invariant ================= *)
+Definition th_holds (p : tpc) : bool := match p with PLocked _ | PUnlock _ => true | _ => false end.
+Definition cb_holds (c : cbpc) : bool := match c with CbLocked | CbSched | CbUnlock => true | _ => false end.
+Definition cb_pre (c : cbpc) : bool := match c with CbNone | CbWantLock | CbLocked => true | _ => false end.
+
+Definition last_ok (snt : list (Z * Z * Z)) (tm : timer) : Prop :=
+  match snt with
+  | (t, _, _) :: _ => 0 <= tm_j tm < tm_d tm -> tm_d tm + tm_j tm <= max_i64 -> t + (tm_d tm - tm_j tm) <= tm_dl tm
+  | [] => True
+  end.
+
+Definition op_bad (o : op) : Prop :=
+  match o with
+  | ONew d j | OReset d j => bad_args d j = true \/ (0 < j /\ rand_arg j <= 0)
+  | OStop => True
+  end.
+
+Definition optl (b : option Z) : list Z := match b with Some v => [v] | None => [] end.
+Definition tick_ts (x : Z * Z * Z) : Z := fst (fst x).
+
+Record TInv (s : st) : Prop := mkTInv {
+  (* the mutex is held by exactly the goroutine whose pc says so *)
+  iA1 : forall th p, nth_error (thr s) th = Some p -> th_holds p = true -> mu s = MTh th;
+  iA2 : forall k tm, nth_error (timers s) k = Some tm -> cb_holds (tm_cb tm) = true -> mu s = MCb k;
+  (* closures capture old generations; the one with the current generation is t.timer *)
+  iG : forall k tm, nth_error (timers s) k = Some tm -> tm_gen tm <= gen s /\ (tm_gen tm = gen s -> tmr s = Some k);
+  (* a callback only runs once its deadline has passed *)
+  iF : forall k tm, nth_error (timers s) k = Some tm -> tm_cb tm <> CbNone -> tm_dl tm <= now s;
+  iF2 : forall k tm, nth_error (timers s) k = Some tm -> tm_st tm = TArmed -> tm_cb tm = CbNone;
+  iT1 : match sent s with (t, _, _) :: _ => t <= now s | [] => True end;
+  iT2 : forall k tm, nth_error (timers s) k = Some tm -> tm_gen tm = gen s -> cb_pre (tm_cb tm) = true ->
+                     last_ok (sent s) tm;
+  iT4 : spaced (sent s);
+  iR : map tick_ts (sent s) = optl (buf s) ++ recvd s;
+  iS : stopped s = true -> forall k tm, nth_error (timers s) k = Some tm -> tm_gen tm < gen s /\ tm_cb tm <> CbSched;
+  iN1 : forall th o, nth_error (thr s) th = Some (PPanicked o) -> op_bad o;
+  iN2 : mu s <> MDead -> 0 < fj s -> 0 < rand_arg (fj s);
+  iN3 : forall k tm, nth_error (timers s) k = Some tm -> tm_cb tm <> CbCrashed
+}.
+
+Lemma tinv_init n : TInv (tinit n).
+Proof.
+  constructor; simpl; try (intros [|k] tm H; discriminate H); try exact I; try reflexivity.
+  - intros th p H Hh. apply nth_error_In in H. apply repeat_spec in H. subst p. discriminate.
+  - discriminate.
+  - intros th o H. apply nth_error_In in H. apply repeat_spec in H. discriminate.
+  - intros _ H. lia.
+Qed.
+
+Ltac inv_step H :=
+  cbv beta iota zeta delta [step step_gen] in H;
+  repeat (match type of H with context [match ?x with _ => _ end] => destruct x eqn:?; try discriminate H end;
+          cbv beta iota zeta in H);
+  try discriminate H; injection H as <-.
+
+(* updating one goroutine's pc *)
+Lemma A1_upd (ths : list tpc) (m : owner) th p :
+  (forall th' p', nth_error ths th' = Some p' -> th_holds p' = true -> m = MTh th') ->
+  (th_holds p = true -> m = MTh th) ->
+  forall th' p', nth_error (upd ths th p) th' = Some p' -> th_holds p' = true -> m = MTh th'.
+Proof.
+  intros Hold Hnew th' p' Hn Hh. apply nth_upd_cases in Hn. destruct Hn as [[-> ->] | [_ Hn]].
+  - apply Hnew; exact Hh.
+  - eapply Hold; eauto.
+Qed.
+
+Lemma N1_upd (ths : list tpc) th p :
+  (forall th' o, nth_error ths th' = Some (PPanicked o) -> op_bad o) ->
+  (forall o, p = PPanicked o -> op_bad o) ->
+  forall th' o, nth_error (upd ths th p) th' = Some (PPanicked o) -> op_bad o.
+Proof.
+  intros Hold Hnew th' o Hn. apply nth_upd_cases in Hn. destruct Hn as [[-> Hp] | [_ Hn]].
+  - apply Hnew. symmetry. exact Hp.
+  - eapply Hold; eauto.
+Qed.
+
+
+Ltac dI I := destruct I as [A1 A2 G F F2 T1 T2 T4 R S N1 N2 N3].
+
+Lemma tinv_LTick s t s' : TInv s -> step s (LTick t) = Some s' -> TInv s'.
+Proof.
+  intros I H. inv_step H. zb. dI I. constructor; simpl; try assumption.
+  - intros k tm Hn Hc. specialize (F k tm Hn Hc). lia.
+  - destruct (sent s) as [|[[t0 d0] j0] tl]; [exact I | lia].
+Qed.
+
+(* ---- primitive state changes ---- *)
+Lemma tinv_set_pc s th p :
+  TInv s -> (th_holds p = true -> mu s = MTh th) -> (forall o, p = PPanicked o -> op_bad o) ->
+  TInv (set_pc s th p).
+Proof.
+  intros I Hh Hp. dI I. constructor; simpl; try assumption.
+  - apply A1_upd; assumption.
+  - apply N1_upd; assumption.
+Qed.
+
+Lemma tinv_set_life s x : TInv s -> TInv (set_life s x).
+Proof. intros I. dI I. constructor; simpl; assumption. Qed.
+
+Lemma tinv_acquire s m : TInv s -> mu s = MFree -> TInv (set_mu s m).
+Proof.
+  intros I Hm. dI I. constructor; simpl; try assumption.
+  - intros th p Hn Hh. specialize (A1 th p Hn Hh). congruence.
+  - intros k tm Hn Hh. specialize (A2 k tm Hn Hh). congruence.
+  - intros _. apply N2. congruence.
+Qed.
+
+Lemma tinv_release s m :
+  TInv s ->
+  (forall th p, nth_error (thr s) th = Some p -> th_holds p = false) ->
+  (forall k tm, nth_error (timers s) k = Some tm -> cb_holds (tm_cb tm) = false) ->
+  (m = MFree /\ mu s <> MDead \/ m = MDead) ->
+  TInv (set_mu s m).
+Proof.
+  intros I Hth Hcb Hm. dI I. constructor; simpl; try assumption.
+  - intros th p Hn Hh. rewrite (Hth th p Hn) in Hh. discriminate.
+  - intros k tm Hn Hh. rewrite (Hcb k tm Hn) in Hh. discriminate.
+  - intros Hnd. destruct Hm as [[-> Hm] | ->]; [apply N2; exact Hm | congruence].
+Qed.
+
+Definition tm_with (tm : timer) (st' : tmst) (c : cbpc) : timer :=
+  mkTm (tm_gen tm) (tm_dl tm) (tm_d tm) (tm_j tm) st' c.
+
+Lemma tinv_set_cb s k tm st' c :
+  TInv s -> nth_error (timers s) k = Some tm ->
+  (cb_holds c = true -> mu s = MCb k) ->
+  (c <> CbNone -> tm_dl tm <= now s) ->
+  (st' = TArmed -> c = CbNone) ->
+  (cb_pre c = true -> cb_pre (tm_cb tm) = true) ->
+  (stopped s = true -> c <> CbSched) ->
+  c <> CbCrashed ->
+  TInv (set_tm s k (tm_with tm st' c)).
+Proof.
+  intros I Hk HA HF HF2 HT HS HN. dI I. constructor; simpl; try assumption.
+  - intros k' tm' Hn Hh. apply nth_upd_cases in Hn. destruct Hn as [[-> ->] | [_ Hn]]; [apply HA; exact Hh | eauto].
+  - intros k' tm' Hn. apply nth_upd_cases in Hn. destruct Hn as [[-> ->] | [_ Hn]]; [exact (G k tm Hk) | eauto].
+  - intros k' tm' Hn Hc. apply nth_upd_cases in Hn. destruct Hn as [[-> ->] | [_ Hn]]; [apply HF; exact Hc | eauto].
+  - intros k' tm' Hn Hc. apply nth_upd_cases in Hn. destruct Hn as [[-> ->] | [_ Hn]]; [apply HF2; exact Hc | eauto].
+  - intros k' tm' Hn Hg Hp. apply nth_upd_cases in Hn. destruct Hn as [[-> ->] | [_ Hn]]; [|eauto].
+    simpl in *. specialize (T2 k tm Hk Hg (HT Hp)). exact T2.
+  - intros Hs k' tm' Hn. apply nth_upd_cases in Hn. destruct Hn as [[-> ->] | [_ Hn]]; [|eauto].
+    simpl. split; [exact (proj1 (S Hs k tm Hk)) | exact (HS Hs)].
+  - intros k' tm' Hn. apply nth_upd_cases in Hn. destruct Hn as [[-> ->] | [_ Hn]]; [exact HN | eauto].
+Qed.
+
+Lemma tm_with_cb tm c : tm_set_cb tm c = tm_with tm (tm_st tm) c.
+Proof. reflexivity. Qed.
+
+Lemma next_delay_none d j r : next_delay true d j r = None -> 0 < j /\ rand_arg j <= 0.
+Proof.
+  unfold next_delay, calls_rand. cbn [negb orb]. destruct (0 <? j) eqn:Ej; [|discriminate].
+  destruct (rand_arg j <=? 0) eqn:E; [|discriminate]. zb. intros _. split; assumption.
+Qed.
+
+Lemma next_delay_some d j r nx : next_delay true d j r = Some nx -> 0 < j -> 0 < rand_arg j.
+Proof.
+  unfold next_delay, calls_rand. cbn [negb orb]. intros H Hj.
+  assert (Ej : (0 <? j) = true) by (apply Z.ltb_lt; exact Hj). rewrite Ej in H.
+  destruct (rand_arg j <=? 0) eqn:E; [discriminate|]. zb. lia.
+Qed.
+
+(* schedule() after the fields were set to (d, j), executed by the holder of the mutex *)
+Lemma tinv_sched s d j r s2 :
+  TInv s -> schedule true (set_fj (set_fd s d) j) r = Some s2 -> r_valid true j r = true ->
+  TInv (set_stopped s2 false).
+Proof.
+  intros I Hs Hr. dI I. apply schedule_spec in Hs. simpl in Hs.
+  destruct Hs as (Enow & Elife & Efd & Efj & Egen & Etmr & Emu & Ebuf & Ethr & Esent & Erecvd & Estopped & Elen & nx & Hnx & Htm).
+  constructor; simpl; try discriminate.
+  - rewrite Ethr, Emu. exact A1.
+  - rewrite Emu. intros k tm' Hn Hh. destruct (Htm k tm' Hn) as [[tm [Hn0 Hss]] | [-> ->]].
+    + destruct Hss as [_ [_ [_ [_ [Ecb _]]]]]. rewrite Ecb in Hh. eauto.
+    + discriminate Hh.
+  - rewrite Egen, Etmr. intros k tm' Hn. destruct (Htm k tm' Hn) as [[tm [Hn0 Hss]] | [-> ->]].
+    + destruct Hss as [Eg _]. rewrite Eg. destruct (G k tm Hn0) as [Hle _]. split; [lia | intros; lia].
+    + simpl. split; [lia | reflexivity].
+  - rewrite Enow. intros k tm' Hn Hc. destruct (Htm k tm' Hn) as [[tm [Hn0 Hss]] | [-> ->]].
+    + destruct Hss as [_ [Edl [_ [_ [Ecb _]]]]]. rewrite Edl. rewrite Ecb in Hc. eauto.
+    + exfalso. apply Hc. reflexivity.
+  - intros k tm' Hn Hc. destruct (Htm k tm' Hn) as [[tm [Hn0 Hss]] | [-> ->]].
+    + destruct Hss as [_ [_ [_ [_ [Ecb Est]]]]]. rewrite Ecb. eauto.
+    + reflexivity.
+  - rewrite Esent, Enow. exact T1.
+  - rewrite Egen, Esent. intros k tm' Hn Hg Hp. destruct (Htm k tm' Hn) as [[tm [Hn0 Hss]] | [-> ->]].
+    + destruct Hss as [Eg _]. rewrite Eg in Hg. destruct (G k tm Hn0) as [Hle _]. lia.
+    + unfold last_ok. destruct (sent s) as [|[[t0 d0] j0] tl]; [exact I|]. simpl.
+      intros Hj Hmax. pose proof (next_delay_lb _ _ _ _ Hnx Hr Hj Hmax). lia.
+  - rewrite Esent. exact T4.
+  - rewrite Esent, Ebuf, Erecvd. exact R.
+  - rewrite Ethr. exact N1.
+  - rewrite Efj. intros _ Hj. eapply next_delay_some; eauto.
+  - intros k tm' Hn. destruct (Htm k tm' Hn) as [[tm [Hn0 Hss]] | [-> ->]].
+    + destruct Hss as [_ [_ [_ [_ [Ecb _]]]]]. rewrite Ecb. eauto.
+    + discriminate.
+Qed.
+
+Lemma st_eta_fields s : set_fj (set_fd s (fd s)) (fj s) = s.
+Proof. destruct s; reflexivity. Qed.
+
+Lemma st_eta_stopped s : stopped s = false -> set_stopped s false = s.
+Proof. destruct s; simpl; intros ->; reflexivity. Qed.
+
+(* ---- per-label preservation ---- *)
+Lemma tinv_LCall s th o s' : TInv s -> step s (LCall th o) = Some s' -> TInv s'.
+Proof.
+  intros I H. inv_step H; apply tinv_set_pc; try discriminate; try apply tinv_set_life; exact I.
+Qed.
+
+Lemma tinv_TValidate s th s' : TInv s -> step s (TValidate th) = Some s' -> TInv s'.
+Proof.
+  intros I H. inv_step H; apply tinv_set_pc; try discriminate; try apply tinv_set_life; try exact I.
+  - intros o0 E. injection E as <-. left. assumption.
+  - intros o0 E. injection E as <-. left. assumption.
+Qed.
+
+Lemma tinv_TLock s th s' : TInv s -> step s (TLock th) = Some s' -> TInv s'.
+Proof.
+  intros I H. inv_step H. apply tinv_set_pc; [apply tinv_acquire; assumption | reflexivity | discriminate].
+Qed.
+
+Lemma tinv_LRet s th o r s' : TInv s -> step s (LRet th o r) = Some s' -> TInv s'.
+Proof.
+  intros I H. inv_step H; apply tinv_set_pc; try discriminate; try apply tinv_set_life; exact I.
+Qed.
+
+Lemma tinv_LRecv s v s' : TInv s -> step s (LRecv v) = Some s' -> TInv s'.
+Proof.
+  intros I H. inv_step H. zb. subst. dI I. constructor; simpl; try assumption.
+  match goal with E : buf s = Some _ |- _ => rewrite E in R end. exact R.
+Qed.
+
+Lemma tinv_TUnlock s th s' : TInv s -> step s (TUnlock th) = Some s' -> TInv s'.
+Proof.
+  intros I H. inv_step H.
+  match goal with E : nth_error (thr s) th = Some (PUnlock ?o) |- _ => rename E into Hth; set (o0 := o) in * end.
+  assert (Hmu : mu s = MTh th) by (eapply (iA1 s I); [exact Hth | reflexivity]).
+  change (TInv (set_mu (set_pc s th (PReturning o0)) MFree)).
+  apply tinv_release.
+  - apply tinv_set_pc; [exact I | discriminate | discriminate].
+  - simpl. intros th' p' Hn. apply nth_upd_cases in Hn. destruct Hn as [[-> ->] | [Hne Hn]]; [reflexivity|].
+    destruct (th_holds p') eqn:E; [|reflexivity]. pose proof (iA1 s I th' p' Hn E) as H2.
+    rewrite Hmu in H2. injection H2 as H2. congruence.
+  - simpl. intros k tm Hn. destruct (cb_holds (tm_cb tm)) eqn:E; [|reflexivity].
+    pose proof (iA2 s I k tm Hn E) as H2. congruence.
+  - left. split; [reflexivity|]. simpl. congruence.
+Qed.
+
+Lemma tinv_TFire s k s' : TInv s -> step s (TFire k) = Some s' -> TInv s'.
+Proof.
+  intros I H. inv_step H. zb.
+  match goal with E : nth_error (timers s) k = Some ?t |- _ => rename E into Hk; set (tm := t) in * end.
+  change (TInv (set_tm s k (tm_with tm TFired CbWantLock))).
+  assert (Ecb : tm_cb tm = CbNone) by (eapply (iF2 s I); eauto).
+  apply tinv_set_cb; try assumption; try discriminate.
+  - intros _. assumption.
+  - intros _. rewrite Ecb. reflexivity.
+Qed.
+
+Lemma tinv_TCbLock s k s' : TInv s -> step s (TCbLock k) = Some s' -> TInv s'.
+Proof.
+  intros I H. inv_step H.
+  match goal with E : nth_error (timers s) k = Some ?t |- _ => rename E into Hk; set (tm := t) in * end.
+  match goal with E : tm_cb tm = CbWantLock |- _ => rename E into Ecb end.
+  change (TInv (set_tm (set_mu s (MCb k)) k (tm_with tm (tm_st tm) CbLocked))).
+  apply tinv_set_cb; try discriminate.
+  - apply tinv_acquire; assumption.
+  - exact Hk.
+  - reflexivity.
+  - intros _. simpl. apply (iF s I k tm Hk). rewrite Ecb. discriminate.
+  - intros Hst. pose proof (iF2 s I k tm Hk Hst). congruence.
+  - intros _. rewrite Ecb. reflexivity.
+Qed.
+
+Lemma tinv_TCbUnlock s k s' : TInv s -> step s (TCbUnlock k) = Some s' -> TInv s'.
+Proof.
+  intros I H. inv_step H.
+  match goal with E : nth_error (timers s) k = Some ?t |- _ => rename E into Hk; set (tm := t) in * end.
+  match goal with E : tm_cb tm = CbUnlock |- _ => rename E into Ecb end.
+  assert (Hmu : mu s = MCb k) by (eapply (iA2 s I); [exact Hk | rewrite Ecb; reflexivity]).
+  change (TInv (set_mu (set_tm s k (tm_with tm (tm_st tm) CbDone)) MFree)).
+  apply tinv_release.
+  - apply tinv_set_cb; try assumption; try discriminate.
+    + intros _. apply (iF s I k tm Hk). rewrite Ecb. discriminate.
+    + intros Hst. pose proof (iF2 s I k tm Hk Hst). congruence.
+  - simpl. intros th p Hn. destruct (th_holds p) eqn:E; [|reflexivity].
+    pose proof (iA1 s I th p Hn E). congruence.
+  - simpl. intros k' tm' Hn. apply nth_upd_cases in Hn. destruct Hn as [[-> ->] | [Hne Hn]]; [reflexivity|].
+    destruct (cb_holds (tm_cb tm')) eqn:E; [|reflexivity].
+    pose proof (iA2 s I k' tm' Hn E) as H2. rewrite Hmu in H2. injection H2 as H2. congruence.
+  - left. split; [reflexivity|]. simpl. congruence.
+Qed.
+
+Ltac cbsend_pre s k I :=
+  match goal with E : nth_error (timers s) k = Some ?t |- _ =>
+    match goal with E2 : tm_cb t = CbLocked |- _ =>
+      assert (Hmu : mu s = MCb k) by (eapply (iA2 s I); [exact E | rewrite E2; reflexivity]);
+      assert (Hdl : tm_dl t <= now s) by (apply (iF s I k t E); rewrite E2; discriminate);
+      assert (Hst : tm_st t = TArmed -> CbLocked = CbNone)
+        by (let X := fresh in intros X; pose proof (iF2 s I k t E X); congruence);
+      rename E into Hk; rename E2 into Ecb; rename t into tm
+    end
+  end.
+
+Lemma tinv_TCbSend s k s' : TInv s -> step s (TCbSend k) = Some s' -> TInv s'.
+Proof.
+  intros I H. inv_step H; zb; cbsend_pre s k I.
+  - (* generation matches, tick dropped (buffer full) *)
+    match goal with E : gen s = tm_gen tm |- _ => rename E into Hg end.
+    change (TInv (set_tm s k (tm_with tm (tm_st tm) CbSched))).
+    apply tinv_set_cb; try assumption; try discriminate; try (intros _; assumption).
+    + intros X. specialize (Hst X). discriminate.
+    + intros Hs. destruct (iS s I Hs k tm Hk). lia.
+  - (* generation matches, tick sent *)
+    match goal with E : gen s = tm_gen tm |- _ => rename E into Hg end.
+    match goal with E : buf s = None |- _ => rename E into Hb end.
+    assert (Hns : stopped s = true -> False) by (intros Hs; destruct (iS s I Hs k tm Hk); lia).
+    dI I. constructor; simpl; try assumption.
+    + intros k' tm' Hn Hh. apply nth_upd_cases in Hn. destruct Hn as [[-> ->] | [_ Hn]]; [exact Hmu | eauto].
+    + intros k' tm' Hn. apply nth_upd_cases in Hn. destruct Hn as [[-> ->] | [_ Hn]]; [exact (G k tm Hk) | eauto].
+    + intros k' tm' Hn Hc. apply nth_upd_cases in Hn. destruct Hn as [[-> ->] | [_ Hn]]; [exact Hdl | eauto].
+    + intros k' tm' Hn Hc. apply nth_upd_cases in Hn. destruct Hn as [[-> ->] | [_ Hn]]; [|eauto].
+      simpl in Hc. pose proof (Hst Hc). discriminate.
+    + lia.
+    + intros k' tm' Hn Hg' Hp. apply nth_upd_cases in Hn. destruct Hn as [[-> ->] | [Hne Hn]]; [discriminate Hp|].
+      exfalso. destruct (G k' tm' Hn) as [_ Hx]. destruct (G k tm Hk) as [_ Hy].
+      specialize (Hx Hg'). specialize (Hy (eq_sym Hg)). congruence.
+    + destruct (sent s) as [|[[t1 d1] j1] tl] eqn:Es; [exact I|]. split; [|exact T4].
+      intros Hj Hmax. assert (Hp : cb_pre (tm_cb tm) = true) by (rewrite Ecb; reflexivity).
+      pose proof (T2 k tm Hk (eq_sym Hg) Hp) as Hl. unfold last_ok in Hl. specialize (Hl Hj Hmax). lia.
+    + rewrite Hb in R. simpl in R. unfold tick_ts at 1. simpl. rewrite R. reflexivity.
+    + intros Hs. exfalso. exact (Hns Hs).
+    + intros k' tm' Hn. apply nth_upd_cases in Hn. destruct Hn as [[-> ->] | [_ Hn]]; [discriminate | eauto].
+  - (* generation differs: the callback does nothing *)
+    change (TInv (set_tm s k (tm_with tm (tm_st tm) CbUnlock))).
+    apply tinv_set_cb; try assumption; try discriminate; try (intros _; assumption).
+    intros X. specialize (Hst X). discriminate.
+Qed.
+
+Lemma tinv_TCbSchedule s k r s' : TInv s -> step s (TCbSchedule k r) = Some s' -> TInv s'.
+Proof.
+  intros I H. inv_step H.
+  - (* schedule succeeded *)
+    match goal with E : nth_error (timers s) k = Some ?t |- _ => rename E into Hk; rename t into tm end.
+    match goal with E : tm_cb tm = CbSched |- _ => rename E into Ecb end.
+    match goal with E : schedule true s r = Some ?x |- _ => rename E into Hs; rename x into s2 end.
+    match goal with E : nth_error (timers s2) k = Some ?t |- _ => rename E into Hk2; rename t into tm2 end.
+    match goal with E : r_valid true (fj s) r = true |- _ => rename E into Hr end.
+    assert (Hmu : mu s = MCb k) by (eapply (iA2 s I); [exact Hk | rewrite Ecb; reflexivity]).
+    assert (Hns : stopped s = false).
+    { destruct (stopped s) eqn:E; [|reflexivity]. destruct (iS s I E k tm Hk) as [_ Hx]. congruence. }
+    assert (I2 : TInv s2).
+    { rewrite <- (st_eta_fields s) in Hs. pose proof (tinv_sched _ _ _ _ _ I Hs Hr) as I2.
+      rewrite st_eta_stopped in I2; [exact I2|].
+      apply schedule_spec in Hs. simpl in Hs. destruct Hs as (_ & _ & _ & _ & _ & _ & _ & _ & _ & _ & _ & E & _).
+      rewrite E. exact Hns. }
+    pose proof (schedule_spec _ _ _ _ Hs) as Hsp.
+    destruct Hsp as (Enow & _ & _ & _ & _ & _ & Emu & _ & _ & _ & _ & Est & _ & nx & _ & Htm).
+    assert (Ecb2 : tm_cb tm2 = CbSched).
+    { destruct (Htm k tm2 Hk2) as [[tm0 [Hn0 Hss]] | [-> _]].
+      - rewrite Hk in Hn0. injection Hn0 as <-. destruct Hss as (_ & _ & _ & _ & E & _). congruence.
+      - apply nth_lt in Hk. lia. }
+    change (TInv (set_tm s2 k (tm_with tm2 (tm_st tm2) CbUnlock))).
+    apply tinv_set_cb; try assumption; try discriminate.
+    + intros _. congruence.
+    + intros _. apply (iF s2 I2 k tm2 Hk2). rewrite Ecb2. discriminate.
+    + intros X. pose proof (iF2 s2 I2 k tm2 Hk2 X). congruence.
+  - (* schedule cannot fail inside the callback *)
+    exfalso.
+    match goal with E : nth_error (timers s) k = Some ?t |- _ => rename E into Hk; rename t into tm end.
+    match goal with E : tm_cb tm = CbSched |- _ => rename E into Ecb end.
+    match goal with E : schedule true s r = None |- _ => rename E into Hs end.
+    assert (Hmu : mu s = MCb k) by (eapply (iA2 s I); [exact Hk | rewrite Ecb; reflexivity]).
+    unfold schedule in Hs. destruct (next_delay true (fd s) (fj s) r) eqn:En; [discriminate|].
+    apply next_delay_none in En. destruct En as [Hj Hra].
+    assert (Hnd : mu s <> MDead) by congruence.
+    pose proof (iN2 s I Hnd Hj). lia.
+Qed.
+
+Lemma no_holders_after s th p :
+  TInv s -> mu s = MTh th -> th_holds p = false ->
+  (forall th' p', nth_error (upd (thr s) th p) th' = Some p' -> th_holds p' = false)
+  /\ (forall k tm, nth_error (timers s) k = Some tm -> cb_holds (tm_cb tm) = false).
+Proof.
+  intros I Hmu Hp. split.
+  - intros th' p' Hn. apply nth_upd_cases in Hn. destruct Hn as [[-> ->] | [Hne Hn]]; [exact Hp|].
+    destruct (th_holds p') eqn:E; [|reflexivity]. pose proof (iA1 s I th' p' Hn E) as H2.
+    rewrite Hmu in H2. injection H2 as H2. congruence.
+  - intros k tm Hn. destruct (cb_holds (tm_cb tm)) eqn:E; [|reflexivity].
+    pose proof (iA2 s I k tm Hn E) as H2. congruence.
+Qed.
+
+(* a panic unwinds out of NewJitterTicker / Reset with the fields already set and t.m still locked *)
+Lemma tinv_dead_fields s d j :
+  TInv s ->
+  (forall th p, nth_error (thr s) th = Some p -> th_holds p = false) ->
+  (forall k tm, nth_error (timers s) k = Some tm -> cb_holds (tm_cb tm) = false) ->
+  TInv (set_mu (set_fj (set_fd s d) j) MDead).
+Proof.
+  intros I Hth Hcb. dI I. constructor; simpl; try assumption.
+  - intros th p Hn Hh. rewrite (Hth th p Hn) in Hh. discriminate.
+  - intros k tm Hn Hh. rewrite (Hcb k tm Hn) in Hh. discriminate.
+  - intros Hx. exfalso. apply Hx. reflexivity.
+Qed.
+
+Lemma tinv_TBodySched s th r s' : TInv s -> step s (TBodySched th r) = Some s' -> TInv s'.
+Proof.
+  intros I H. inv_step H;
+  (match goal with E : nth_error (thr s) th = Some (PLocked ?o) |- _ =>
+         assert (Hmu : mu s = MTh th) by (eapply (iA1 s I); [exact E | reflexivity]) end);
+  (match goal with
+       | E : schedule true _ r = Some ?x |- _ =>
+           match goal with Hr : r_valid true _ r = true |- _ =>
+             pose proof (tinv_sched _ _ _ _ _ I E Hr) as I2;
+             apply tinv_set_pc; [exact I2 | | discriminate];
+             intros _; simpl; apply schedule_spec in E; simpl in E;
+             destruct E as (_ & _ & _ & _ & _ & _ & Emu & _); congruence
+           end
+       | E : schedule true _ r = None |- _ =>
+         unfold schedule in E; simpl in E;
+         match type of E with context [next_delay true ?d ?j r] =>
+           destruct (next_delay true d j r) eqn:En; [discriminate E|]; apply next_delay_none in En end
+       end).
+  - (* ONew panics *)
+    match goal with |- TInv (set_life (set_pc (set_mu (set_fj (set_fd s ?d) ?j) MDead) th ?p) LNone) =>
+      change (TInv (set_life (set_mu (set_fj (set_fd (set_pc s th p) d) j) MDead) LNone)) end.
+    apply tinv_set_life.
+    destruct (no_holders_after s th (PPanicked (ONew d j)) I Hmu eq_refl) as [Hh1 Hh2].
+    apply tinv_dead_fields; [|exact Hh1|exact Hh2].
+    apply tinv_set_pc; [exact I | discriminate|]. intros o9 E. injection E as <-. right. exact En.
+  - (* OReset panics *)
+    match goal with |- TInv (set_pc (set_mu (set_fj (set_fd s ?d) ?j) MDead) th ?p) =>
+      change (TInv (set_mu (set_fj (set_fd (set_pc s th p) d) j) MDead)) end.
+    destruct (no_holders_after s th (PPanicked (OReset d j)) I Hmu eq_refl) as [Hh1 Hh2].
+    apply tinv_dead_fields; [|exact Hh1|exact Hh2].
+    apply tinv_set_pc; [exact I | discriminate|]. intros o9 E. injection E as <-. right. exact En.
+Qed.
+
+Lemma tinv_TBodyStop s th s' : TInv s -> step s (TBodyStop th) = Some s' -> TInv s'.
+Proof.
+  intros I H. inv_step H;
+  (match goal with E : nth_error (thr s) th = Some (PLocked OStop) |- _ =>
+     assert (Hmu : mu s = MTh th) by (eapply (iA1 s I); [exact E | reflexivity]) end).
+  - (* t.timer != nil *)
+    match goal with E : tmr s = Some ?x |- _ => rename x into k0 end.
+    apply tinv_set_pc; [|intros _; exact Hmu | discriminate].
+    dI I. constructor; simpl; try assumption.
+    + intros k tm' Hn Hh. apply stop_timer_nth in Hn. destruct Hn as [tm [Hn (_ & _ & _ & _ & Ecb & _)]].
+      rewrite Ecb in Hh. eauto.
+    + intros k tm' Hn. apply stop_timer_nth in Hn. destruct Hn as [tm [Hn (Eg & _)]].
+      rewrite Eg. destruct (G k tm Hn) as [Hle _]. split; [lia | intros; lia].
+    + intros k tm' Hn Hc. apply stop_timer_nth in Hn. destruct Hn as [tm [Hn (_ & Edl & _ & _ & Ecb & _)]].
+      rewrite Edl. rewrite Ecb in Hc. eauto.
+    + intros k tm' Hn Hst. apply stop_timer_nth in Hn. destruct Hn as [tm [Hn (_ & _ & _ & _ & Ecb & Est)]].
+      rewrite Ecb. eauto.
+    + intros k tm' Hn Hg. apply stop_timer_nth in Hn. destruct Hn as [tm [Hn (Eg & _)]].
+      rewrite Eg in Hg. destruct (G k tm Hn) as [Hle _]. lia.
+    + intros _ k tm' Hn. apply stop_timer_nth in Hn. destruct Hn as [tm [Hn (Eg & _ & _ & _ & Ecb & _)]].
+      rewrite Eg, Ecb. destruct (G k tm Hn) as [Hle _]. split; [lia|].
+      intros Hc. assert (Hh : cb_holds (tm_cb tm) = true) by (rewrite Hc; reflexivity).
+      pose proof (A2 k tm Hn Hh). congruence.
+    + intros k tm' Hn. apply stop_timer_nth in Hn. destruct Hn as [tm [Hn (_ & _ & _ & _ & Ecb & _)]].
+      rewrite Ecb. eauto.
+  - (* t.timer == nil: nil dereference with t.m held *)
+    match goal with E : tmr s = None |- _ => rename E into Htm end.
+    match goal with |- TInv (set_pc (set_stopped (set_mu s MDead) true) th ?p) =>
+      change (TInv (set_stopped (set_mu (set_pc s th p) MDead) true)) end.
+    destruct (no_holders_after s th (PPanicked OStop) I Hmu eq_refl) as [Hh1 Hh2].
+    assert (I1 : TInv (set_mu (set_pc s th (PPanicked OStop)) MDead)).
+    { apply tinv_release; [|exact Hh1|exact Hh2|right; reflexivity].
+      apply tinv_set_pc; [exact I | discriminate|]. intros o9 E. injection E as <-. exact Logic.I. }
+    assert (HS : forall k tm, nth_error (timers s) k = Some tm -> tm_gen tm < gen s /\ tm_cb tm <> CbSched).
+    { intros k tm Hn. destruct (iG s I k tm Hn) as [Hle Heq]. split.
+      - destruct (Z.eq_dec (tm_gen tm) (gen s)) as [E|E]; [specialize (Heq E); congruence | lia].
+      - intros Hc. pose proof (Hh2 k tm Hn) as Hx. rewrite Hc in Hx. discriminate. }
+    dI I1. constructor; simpl in *; try assumption. intros _. exact HS.
+Qed.
+
+Theorem tinv_step s l s' : TInv s -> step s l = Some s' -> TInv s'.
+Proof.
+  intros I H. destruct l.
+  - eapply tinv_LTick; eauto.
+  - eapply tinv_LCall; eauto.
+  - eapply tinv_LRet; eauto.
+  - eapply tinv_LRecv; eauto.
+  - eapply tinv_TValidate; eauto.
+  - eapply tinv_TLock; eauto.
+  - eapply tinv_TBodySched; eauto.
+  - eapply tinv_TBodyStop; eauto.
+  - eapply tinv_TUnlock; eauto.
+  - eapply tinv_TFire; eauto.
+  - eapply tinv_TCbLock; eauto.
+  - eapply tinv_TCbSend; eauto.
+  - eapply tinv_TCbSchedule; eauto.
+  - eapply tinv_TCbUnlock; eauto.
+Qed.
+
+Theorem tinv_reachable n s : reachable step (tinit n) s -> TInv s.
+Proof.
+  apply (invariant_rule step TInv); [apply tinv_init|]. intros s0 l s1 I H. eapply tinv_step; eauto.
+Qed.
+
+(* ================= consequences ================= *)
+
+(* --- no panic --- *)
+Lemma op_bad_documented d j :
+  0 < d -> 0 <= j < d -> 2 * j <= max_i64 ->
+  ~ (bad_args d j = true \/ (0 < j /\ rand_arg j <= 0)).
+Proof.
+  intros Hd Hj Hmax [Hb | [Hj0 Hr]].
+  - unfold bad_args in Hb. apply orb_true_iff in Hb. destruct Hb as [Hb|Hb]; zb; lia.
+  - unfold rand_arg in Hr. rewrite wrap64_small in Hr by (unfold max_i64 in *; lia). lia.
+Qed.
+
+Theorem ticker_no_panic n s th d j :
+  reachable step (tinit n) s ->
+  0 < d -> 0 <= j < d -> 2 * j <= max_i64 ->
+  nth_error (thr s) th <> Some (PPanicked (ONew d j))
+  /\ nth_error (thr s) th <> Some (PPanicked (OReset d j))
+  /\ step s (LRet th (ONew d j) RPanic) = None
+  /\ step s (LRet th (OReset d j) RPanic) = None.
+Proof.
+  intros Hr Hd Hj Hmax. pose proof (tinv_reachable _ _ Hr) as I.
+  assert (H1 : nth_error (thr s) th <> Some (PPanicked (ONew d j))).
+  { intros E. apply (op_bad_documented d j Hd Hj Hmax). exact (iN1 s I th _ E). }
+  assert (H2 : nth_error (thr s) th <> Some (PPanicked (OReset d j))).
+  { intros E. apply (op_bad_documented d j Hd Hj Hmax). exact (iN1 s I th _ E). }
+  split; [exact H1|]. split; [exact H2|].
+  split.
+  - destruct (step s (LRet th (ONew d j) RPanic)) eqn:E; [|reflexivity]. exfalso.
+    cbv beta iota zeta delta [step step_gen] in E.
+    destruct (nth_error (thr s) th) as [p|] eqn:Ep; [|discriminate].
+    destruct p; try discriminate. destruct (op_eqb (ONew d j) o) eqn:Eo; [|discriminate].
+    destruct o; simpl in Eo; try discriminate. zb. subst. apply H1. reflexivity.
+  - destruct (step s (LRet th (OReset d j) RPanic)) eqn:E; [|reflexivity]. exfalso.
+    cbv beta iota zeta delta [step step_gen] in E.
+    destruct (nth_error (thr s) th) as [p|] eqn:Ep; [|discriminate].
+    destruct p; try discriminate. destruct (op_eqb (OReset d j) o) eqn:Eo; [|discriminate].
+    destruct o; simpl in Eo; try discriminate. zb. subst. apply H2. reflexivity.
+Qed.
+
+(* the callback goroutine never panics (it would crash the whole program), whatever was passed *)
+Theorem ticker_callback_no_panic n s k tm :
+  reachable step (tinit n) s -> nth_error (timers s) k = Some tm -> tm_cb tm <> CbCrashed.
+Proof. intros Hr. exact (iN3 s (tinv_reachable _ _ Hr) k tm). Qed.
+
+Definition huge_j : Z := 4611686018427387904.        (* 2^62 ns, about 146 years *)
+Definition huge_d : Z := 4611686018427387905.
+
+(* ... but the unrestricted claim is false: a documented pair with 2*jitter > max_i64 panics *)
+Lemma ticker_no_panic_refuted :
+  0 < huge_d /\ 0 <= huge_j < huge_d /\ huge_d <= max_i64 /\
+  exists s, run step (tinit 1) [LCall 0 (ONew huge_d huge_j); TValidate 0; TLock 0; TBodySched 0 0] = Some s
+            /\ nth_error (thr s) 0 = Some (PPanicked (ONew huge_d huge_j)).
+Proof.
+  split; [reflexivity|]. split; [split; [discriminate | reflexivity]|]. split; [discriminate|].
+  eexists. split; [vm_compute; reflexivity | reflexivity].
+Qed.
+
+(* the historical code (rand.Int63n called unconditionally) panics for jitter = 0; the current code does not *)
+Lemma ticker_old_refuted :
+  (exists s, run step_old (tinit 1) [LCall 0 (ONew 5 0); TValidate 0; TLock 0; TBodySched 0 0] = Some s
+             /\ nth_error (thr s) 0 = Some (PPanicked (ONew 5 0)))
+  /\ (exists s, run step (tinit 1) [LCall 0 (ONew 5 0); TValidate 0; TLock 0; TBodySched 0 0] = Some s
+                /\ nth_error (thr s) 0 = Some (PUnlock (ONew 5 0))).
+Proof. split; eexists; (split; [vm_compute; reflexivity | reflexivity]). Qed.
+
+(* --- spacing --- *)
+Theorem ticker_spacing n s : reachable step (tinit n) s -> spaced (sent s).
+Proof. intros Hr. exact (iT4 s (tinv_reachable _ _ Hr)). Qed.
+
+(* what receivers get from C is exactly the sequence of ticks sent, in order (newest first, the
+   buffered one if any in front) *)
+Theorem ticker_received_are_sent n s :
+  reachable step (tinit n) s -> map tick_ts (sent s) = optl (buf s) ++ recvd s.
+Proof. intros Hr. exact (iR s (tinv_reachable _ _ Hr)). Qed.
+
+(* unfolded for two adjacent ticks *)
+Corollary ticker_spacing_adjacent n s t2 d2 j2 t1 d1 j1 pre post :
+  reachable step (tinit n) s -> sent s = pre ++ (t2, d2, j2) :: (t1, d1, j1) :: post ->
+  0 <= j2 < d2 -> d2 + j2 <= max_i64 -> d2 - j2 <= t2 - t1.
+Proof.
+  intros Hr Hs. pose proof (ticker_spacing _ _ Hr) as Hsp. rewrite Hs in Hsp. clear Hs Hr.
+  induction pre as [|[[t d] j] pre IH]; simpl in Hsp.
+  - destruct Hsp as [H _]. exact H.
+  - destruct (pre ++ (t2, d2, j2) :: (t1, d1, j1) :: post) as [|[[t' d'] j'] tl] eqn:E.
+    + destruct pre; discriminate.
+    + apply IH. exact (proj2 Hsp).
+Qed.
+
+(* --- no tick after Stop --- *)
+Lemma step_sent s l s' :
+  step s l = Some s' ->
+  sent s' = sent s \/ exists k tm, l = TCbSend k /\ nth_error (timers s) k = Some tm /\ gen s = tm_gen tm.
+Proof.
+  intros H. destruct l; inv_step H; simpl; try (left; reflexivity).
+  - left. match goal with E : schedule true _ _ = Some _ |- _ => apply schedule_spec in E; simpl in E;
+            destruct E as (_ & _ & _ & _ & _ & _ & _ & _ & _ & E & _); exact E end.
+  - left. match goal with E : schedule true _ _ = Some _ |- _ => apply schedule_spec in E; simpl in E;
+            destruct E as (_ & _ & _ & _ & _ & _ & _ & _ & _ & E & _); exact E end.
+  - right. zb. eauto.
+  - left. match goal with E : schedule true _ _ = Some _ |- _ => apply schedule_spec in E; simpl in E;
+            destruct E as (_ & _ & _ & _ & _ & _ & _ & _ & _ & E & _); exact E end.
+Qed.
+
+Lemma step_stopped s l s' :
+  step s l = Some s' ->
+  match l with
+  | TBodyStop _ => stopped s' = true
+  | TBodySched _ _ => True
+  | _ => stopped s' = stopped s
+  end.
+Proof.
+  intros H. destruct l; inv_step H; simpl; try reflexivity; try exact Logic.I.
+  match goal with E : schedule true _ _ = Some _ |- _ => apply schedule_spec in E; simpl in E;
+    destruct E as (_ & _ & _ & _ & _ & _ & _ & _ & _ & _ & _ & E & _); exact E end.
+Qed.
+
+Lemma stopped_no_send s l s' :
+  TInv s -> stopped s = true -> step s l = Some s' -> sent s' = sent s.
+Proof.
+  intros I Hs H. destruct (step_sent _ _ _ H) as [E | [k [tm [_ [Hk Hg]]]]]; [exact E|].
+  destruct (iS s I Hs k tm Hk) as [Hlt _]. lia.
+Qed.
+
+Definition no_sched_body (ls : list lab) : bool := forallb (fun l => negb (is_sched_body l)) ls.
+
+Lemma stopped_run ls : forall s s',
+  TInv s -> stopped s = true -> run step s ls = Some s' -> no_sched_body ls = true ->
+  sent s' = sent s /\ stopped s' = true /\ TInv s'.
+Proof.
+  induction ls as [|l ls IH]; intros s s' I Hs Hrun Hno; simpl in Hrun.
+  - injection Hrun as <-. split; [reflexivity | split; assumption].
+  - destruct (step s l) as [s1|] eqn:E; [|discriminate].
+    simpl in Hno. apply andb_true_iff in Hno. destruct Hno as [Hl Hno].
+    assert (Hs1 : stopped s1 = true).
+    { pose proof (step_stopped _ _ _ E) as Hx. destruct l; try congruence. discriminate Hl. }
+    destruct (IH s1 s' (tinv_step _ _ _ I E) Hs1 Hrun Hno) as [H1 [H2 H3]].
+    split; [rewrite H1; eapply stopped_no_send; eauto|]. split; assumption.
+Qed.
+
+Theorem ticker_no_tick_after_stop n ls1 th ls2 s1 s2 :
+  run step (tinit n) (ls1 ++ [TBodyStop th]) = Some s1 ->
+  run step s1 ls2 = Some s2 ->
+  no_sched_body ls2 = true ->
+  sent s2 = sent s1 /\ stopped s2 = true
+  /\ (forall l s3, step s2 l = Some s3 -> sent s3 = sent s2).
+Proof.
+  intros H1 H2 Hno. rewrite run_app in H1.
+  destruct (run step (tinit n) ls1) as [s0|] eqn:E0; [|discriminate]. cbn [run] in H1.
+  destruct (step s0 (TBodyStop th)) as [s1'|] eqn:E1; [|discriminate]. injection H1 as <-.
+  assert (I0 : TInv s0) by (apply (tinv_reachable n); exists ls1; exact E0).
+  pose proof (tinv_step _ _ _ I0 E1) as I1.
+  pose proof (step_stopped _ _ _ E1) as Hs1. simpl in Hs1.
+  destruct (stopped_run ls2 s1' s2 I1 Hs1 H2 Hno) as [Ha [Hb Hc]].
+  split; [exact Ha|]. split; [exact Hb|].
+  intros l s3 H3. eapply stopped_no_send; eauto.
+Qed.
+
+(* Stop returns only after its critical section: a goroutine whose Stop call is past the body got
+   there through a [TBodyStop] step of its own *)
+Definition stop_post (ths : list tpc) (th : nat) : Prop :=
+  nth_error ths th = Some (PUnlock OStop) \/ nth_error ths th = Some (PReturning OStop).
+
+Lemma step_stop_post s l s' th :
+  step s l = Some s' -> stop_post (thr s') th -> stop_post (thr s) th \/ l = TBodyStop th.
+Proof.
+  intros H Hp. unfold stop_post in *.
+  destruct l; inv_step H; simpl in Hp;
+    try (left; exact Hp);
+    try (match goal with E : schedule true _ _ = Some _ |- _ => apply schedule_spec in E; simpl in E;
+           destruct E as (_ & _ & _ & _ & _ & _ & _ & _ & E & _); try rewrite E in Hp end);
+    try (left; exact Hp);
+    try (destruct Hp as [Hp|Hp]; apply nth_upd_cases in Hp; destruct Hp as [[-> Hp] | [_ Hp]];
+         try discriminate Hp; try (left; left; exact Hp); try (left; right; exact Hp);
+         try (right; reflexivity)).
+  all: try (injection Hp as <-; left; left; assumption).
+Qed.
+
+Theorem stop_return_follows_body n ls : forall s th,
+  run step (tinit n) ls = Some s -> stop_post (thr s) th ->
+  exists ls1 ls2, ls = ls1 ++ TBodyStop th :: ls2.
+Proof.
+  induction ls as [|l ls IH] using rev_ind; intros s th Hrun Hp.
+  - simpl in Hrun. injection Hrun as <-. exfalso. unfold stop_post, tinit in Hp. simpl in Hp.
+    destruct Hp as [Hp|Hp]; apply nth_error_In in Hp; apply repeat_spec in Hp; discriminate.
+  - rewrite run_app in Hrun. destruct (run step (tinit n) ls) as [s0|] eqn:E0; [|discriminate].
+    cbn [run] in Hrun. destruct (step s0 l) as [s1|] eqn:E1; [|discriminate]. injection Hrun as <-.
+    destruct (step_stop_post _ _ _ _ E1 Hp) as [Hp0 | ->].
+    + destruct (IH s0 th eq_refl Hp0) as [ls1 [ls2 ->]]. exists ls1, (ls2 ++ [l]).
+      rewrite <- app_assoc. reflexivity.
+    + exists ls, []. reflexivity.
+Qed.
+
+(* non-vacuity: NewJitterTicker, two ticks, a Reset and a Stop that both race a timer whose callback has
+   already started (the stale callbacks see a different gen and send nothing) *)
+Definition example_run : list lab :=
+  [LCall 0 (ONew 100 10); TValidate 0; TLock 0; TBodySched 0 3; TUnlock 0; LRet 0 (ONew 100 10) RNormal;
+   LTick 95; TFire 0; TCbLock 0; TCbSend 0; TCbSchedule 0 19; TCbUnlock 0; LRecv 95;
+   LTick 204; TFire 1; LCall 1 (OReset 50 0); TValidate 1; TLock 1; TBodySched 1 0; TUnlock 1;
+   LRet 1 (OReset 50 0) RNormal; TCbLock 1; TCbSend 1; TCbUnlock 1;
+   LTick 260; TFire 2; TCbLock 2; TCbSend 2; TCbSchedule 2 0; TCbUnlock 2;
+   LTick 310; TFire 3; LCall 0 OStop; TValidate 0; TLock 0; TBodyStop 0; TUnlock 0; LRet 0 OStop RNormal;
+   TCbLock 3; TCbSend 3; TCbUnlock 3; LRecv 260].
+
+Example ticker_runs :
+  exists s, run step (tinit 2) example_run = Some s
+            /\ sent s = [(260, 50, 0); (95, 100, 10)] /\ recvd s = [260; 95] /\ buf s = None
+            /\ stopped s = true /\ gen s = 5 /\ mu s = MFree /\ length (timers s) = 4%nat.
+Proof. eexists. split; [vm_compute; reflexivity|]. repeat split. Qed.
